@@ -99,11 +99,13 @@ def exempt (e : Emitter) : Bool :=
 def exemptKinds : List RuleKind :=
   [.libraryFunction, .addon, .clangTidy, .ruleFile, .replayXml, .replayPipe, .internalErrorId]
 
-/-- number of passes of the reachability computation (any number is sound; 12 exceeds the depth of the extracted graph) -/
-def passes : Nat := 12
+/-- number of passes of the reachability computation (any number is sound; the translator orders the edges by breadth-first
+    level of the caller, so the first pass already reaches everything reachable) -/
+def passes : Nat := 2
 
-/-- functions reached from CppCheck::getErrorMessages in the extracted call graph (bit set) -/
-def reached : Nat := reachBits calls roots passes
+/-- functions reached from CppCheck::getErrorMessages in the extracted call graph (bit set): the numeral the translator
+    computed; `reached_eq` re-computes it in the kernel -/
+def reached : Nat := reachedLit
 
 /-- ids of the emitters whose function is reached -/
 def reachedIds : List Nat := idsOfReached reached emitters
@@ -114,8 +116,11 @@ def IdsSubset : Prop := ∀ e ∈ emitters, exempt e = true ∨ e.id ∈ errorli
 /-! ### the theorems -/
 
 /-- every function in `reached` has a call path from CppCheck::getErrorMessages in the extracted call graph -/
-theorem reach_sound : ∀ f, reached.testBit f = true → Reach calls roots f :=
-  reachBits_sound calls roots passes
+theorem reached_eq : reachBits calls roots passes = reached := by decide +kernel
+
+theorem reach_sound : ∀ f, reached.testBit f = true → Reach calls roots f := by
+  rw [← reached_eq]
+  exact reachBits_sound calls roots passes
 
 /-- PARTIAL (hypothesis: the id is not one of `knownUnlisted`): every emitter's id is printed by the built binary's
     --errorlist, or the emitter is exempt -/
